@@ -1336,6 +1336,15 @@ Proof.
       rewrite <- app_assoc. exact Hx.
 Qed.
 
+Lemma NoDup_app_intro : forall {A} (l1 l2 : list A),
+  NoDup l1 -> NoDup l2 -> (forall x, In x l1 -> In x l2 -> False) -> NoDup (l1 ++ l2).
+Proof.
+  intros A l1; induction l1 as [|a l1 IH]; simpl; intros l2 H1 H2 H; [exact H2|].
+  inv H1. constructor.
+  - intros Hin. apply in_app_or in Hin. destruct Hin as [Hin|Hin]; [auto|]. apply (H a); auto.
+  - apply IH; auto. intros x Hx1 Hx2. apply (H x); auto.
+Qed.
+
 Definition antichain (c : chart) (q : list name) : Prop :=
   NoDup q /\ forall x y, In x q -> In y q -> ~ anc c x y.
 
@@ -1402,8 +1411,231 @@ Proof.
       destruct (anc_inv _ _ _ Ha) as [p [Hp _]]. apply has_state_In. apply (sd_pkeys c HS). congruence. }
     pose proof (NoDup_incl_length Hnd Hincl) as Hlen. rewrite map_length in Hlen.
     assert (Hcl := bfs_closed c (S (length (c_states c))) [n]).
-    simpl length in Hcl. specialize (Hcl ltac:(lia)).
+    change (length [n]) with 1 in Hcl. specialize (Hcl ltac:(lia)).
     intros Ha. induction Ha as [x a Hp|x q a Hp Ha IH].
     + apply (Hcl a); [left; reflexivity|]. apply sound_parent_child; assumption.
     + apply (Hcl q); [right; apply IH; assumption|]. apply sound_parent_child; assumption.
+Qed.
+
+(* ------------------------------------------------------------------ move_state *)
+Definition mv_state (n k : name) (s : state) : state :=
+  clear_refs_move n (if str_eqb k n && is_history (s_kind s) then set_memory_ s None else s).
+
+Definition mv_list (n np : name) (k : option name) (l : list name) : list name :=
+  if opt_eqb str_eqb k (Some np) then remove_first n l ++ [n] else remove_first n l.
+
+Lemma ostr_eqb_Some_false : forall (i n : name), ostr_eqb (Some i) (Some n) = false -> i <> n.
+Proof. intros i n H E. subst. unfold ostr_eqb in H. simpl in H. rewrite seqb_refl in H. discriminate. Qed.
+
+Lemma kind_compound_not_history : forall k, k = KCompound -> is_history k = true -> False.
+Proof. intros k -> H; discriminate. Qed.
+
+Ltac fin_refs :=
+  repeat split; try discriminate; try congruence;
+  let Hk := fresh "Hk" in
+  intros Hk;
+  first
+    [ match goal with E : kind_eqb _ _ = false |- _ => rewrite Hk in E; discriminate end
+    | match goal with E : kind_eqb ?k _ = true, E2 : is_history ?k = true |- _ =>
+        apply kind_eqb_eq in E; rewrite E in E2; discriminate end
+    | match goal with E : ostr_eqb ?a (Some _) = false, H : ?a = Some _ |- _ =>
+        rewrite H in E; apply ostr_eqb_Some_false; exact E end
+    | idtac ].
+
+Lemma clear_refs_move_spec : forall n s,
+  s_name (clear_refs_move n s) = s_name s /\ s_kind (clear_refs_move n s) = s_kind s /\
+  (forall i, s_initial (clear_refs_move n s) = Some i ->
+     s_initial s = Some i /\ (s_kind s = KCompound -> i <> n)) /\
+  (forall m, s_memory (clear_refs_move n s) = Some m ->
+     s_memory s = Some m /\ (is_history (s_kind s) = true -> m <> n)).
+Proof.
+  intros n s. unfold clear_refs_move.
+  destruct (kind_eqb (s_kind s) KCompound) eqn:Ec;
+  destruct (ostr_eqb (s_initial s) (Some n)) eqn:Ei; simpl;
+  destruct (is_history (s_kind s)) eqn:Eh;
+  destruct (ostr_eqb (s_memory s) (Some n)) eqn:Em; simpl; fin_refs.
+Qed.
+
+Lemma mv_state_spec : forall n k s,
+  s_name (mv_state n k s) = s_name s /\ s_kind (mv_state n k s) = s_kind s /\
+  (forall i, s_initial (mv_state n k s) = Some i ->
+     s_initial s = Some i /\ (s_kind s = KCompound -> i <> n)) /\
+  (forall m, s_memory (mv_state n k s) = Some m ->
+     s_memory s = Some m /\ (is_history (s_kind s) = true -> m <> n /\ k <> n)).
+Proof.
+  intros n k s. unfold mv_state.
+  set (s0 := if str_eqb k n && is_history (s_kind s) then set_memory_ s None else s).
+  destruct (clear_refs_move_spec n s0) as [H1 [H2 [H3 H4]]].
+  assert (E : s_name s0 = s_name s /\ s_kind s0 = s_kind s /\ s_initial s0 = s_initial s /\
+              (forall m, s_memory s0 = Some m -> s_memory s = Some m /\ (is_history (s_kind s) = true -> k <> n))).
+  { unfold s0. destruct (seqbP k n) as [Ek|Ek]; destruct (is_history (s_kind s)) eqn:Eh; simpl;
+      repeat split; try discriminate; auto. }
+  destruct E as [E1 [E2 [E3 E4]]].
+  rewrite H1, H2, E1, E2. split; [reflexivity|]. split; [reflexivity|]. split.
+  - intros i Hi. destruct (H3 i Hi) as [Ha Hb]. rewrite E3, E2 in *. auto.
+  - intros m Hm. destruct (H4 m Hm) as [Ha Hb]. destruct (E4 m Ha) as [Hc Hd]. rewrite E2 in *. auto.
+Qed.
+
+Lemma move_state_inv : forall c n np c' r,
+  move_state c n np = (c', r) -> r = EOk \/ r = EKeyError ->
+  exists st, lookup n (c_states c) = Some st /\ has_state c np = true /\
+    mem np (n :: descendants_for c n) = false /\
+    match olookup (parent_for c n) (c_children c) with
+    | None => r = EKeyError
+    | Some l =>
+        r = EOk /\
+        c' = mkChart (c_name c) (c_description c) (c_preamble c)
+               (map (fun kv => (fst kv, clear_refs_move n (snd kv)))
+                    (if is_history (s_kind st) then dset n (set_memory_ st None) (c_states c) else c_states c))
+               (dset n (Some np) (c_parent c))
+               (let ch1 := oset (parent_for c n) (remove_first n l) (c_children c) in
+                oset (Some np) ((match olookup (Some np) ch1 with Some x => x | None => [] end) ++ [n]) ch1)
+               (c_transitions c)
+    end.
+Proof.
+  intros c n np c' r H Hr. unfold move_state, state_for in H.
+  destruct (lookup n (c_states c)) as [st|] eqn:Est; [|inv H; destruct Hr; discriminate].
+  exists st. split; [reflexivity|].
+  destruct (has_state c np) eqn:Enp; cbn [negb] in H; [|inv H; destruct Hr; discriminate].
+  split; [reflexivity|].
+  destruct (mem np (n :: descendants_for c n)) eqn:Em; [inv H; destruct Hr; discriminate|].
+  split; [reflexivity|].
+  destruct (olookup (parent_for c n) (c_children c)) as [l|]; inv H; auto.
+Qed.
+
+Lemma move_state_sound : forall c n np c',
+  sound c -> move_state c n np = (c', EOk) -> sound c'.
+Proof.
+  intros c n np c' HS H.
+  destruct (move_state_inv _ _ _ _ _ H (or_introl eq_refl)) as [st [Hst [Hnp [Hguard Hm]]]].
+  assert (Hn : has_state c n = true) by (unfold has_state; rewrite Hst; reflexivity).
+  destruct (sound_state_parent c HS n Hn) as [op Hop].
+  rewrite (parent_for_lookup _ _ _ Hop) in Hm.
+  destruct (sd_pc c HS _ _ Hop) as [Hopq [l [Hl Hcnt]]]. rewrite Hl in Hm.
+  destruct Hm as [_ Hc']. cbv zeta in Hc'. subst c'.
+  match goal with |- sound ?x => set (c' := x) end.
+  (* the guard: np is neither n nor a descendant *)
+  assert (Hnpn : np <> n /\ ~ anc c np n).
+  { apply mem_false_iff in Hguard. split.
+    - intros E; apply Hguard; left; auto.
+    - intros E; apply Hguard; right. apply descendants_for_spec; assumption. }
+  destruct Hnpn as [Hnpn Hnanc].
+  (* lists containing n *)
+  assert (Hnin : forall k lk, olookup k (c_children c) = Some lk -> k <> op -> ~ In n lk).
+  { intros k lk Hk Hne Hin. rewrite (sd_cp c HS _ _ _ Hk Hin) in Hop. congruence. }
+  destruct (sound_state_children c HS np Hnp) as [lnp Hlnp].
+  assert (V1 : forall k, lookup k (c_states c') = option_map (mv_state n k) (lookup k (c_states c))).
+  { intros k. unfold c'. cbn [c_states]. rewrite lookup_mapv. unfold mv_state.
+    destruct (is_history (s_kind st)) eqn:Eh.
+    - rewrite lookup_dset. destruct (seqbP k n) as [->|Hk]; simpl.
+      + rewrite Hst. simpl. rewrite Eh. reflexivity.
+      + destruct (lookup k (c_states c)); reflexivity.
+    - destruct (seqbP k n) as [->|Hk]; simpl.
+      + rewrite Hst. simpl. rewrite Eh. reflexivity.
+      + destruct (lookup k (c_states c)); reflexivity. }
+  assert (V2 : forall k, lookup k (c_parent c') = if str_eqb k n then Some (Some np) else lookup k (c_parent c)).
+  { intros k. unfold c'. cbn [c_parent]. apply lookup_dset. }
+  assert (V3 : forall k, olookup k (c_children c') = option_map (mv_list n np k) (olookup k (c_children c))).
+  { intros k. unfold c'. cbn [c_children]. rewrite !olookup_oset. unfold mv_list.
+    destruct (oeqbP k (Some np)) as [->|Hk].
+    - rewrite Hlnp. simpl. destruct (oeqbP (Some np) op) as [E|E].
+      + rewrite <- E in Hl. rewrite Hl in Hlnp. inv Hlnp. reflexivity.
+      + rewrite Hlnp. rewrite (remove_first_notin n lnp); [reflexivity|]. apply (Hnin _ _ Hlnp E).
+    - destruct (oeqbP k op) as [->|Hk2].
+      + rewrite Hl. reflexivity.
+      + destruct (olookup k (c_children c)) as [lk|] eqn:Ek; [|reflexivity]. simpl.
+        rewrite (remove_first_notin n lk); [reflexivity|]. apply (Hnin _ _ Ek Hk2). }
+  assert (V4 : forall k, has_state c' k = has_state c k).
+  { intros k. unfold has_state. rewrite V1. destruct (lookup k (c_states c)); reflexivity. }
+  assert (Hmv : forall k lk x, olookup k (c_children c) = Some lk -> x <> n -> In x lk -> In x (mv_list n np k lk)).
+  { intros k lk x _ Hx Hin. unfold mv_list.
+    destruct (opt_eqb str_eqb k (Some np)); [apply in_or_app; left|]; apply In_remove_first_neq; assumption. }
+  assert (Hchf : forall k x, x <> n -> In x (children_for c k) -> In x (children_for c' k)).
+  { intros k x Hx Hin. unfold children_for in *. rewrite V3.
+    destruct (olookup (Some k) (c_children c)) as [lk|] eqn:Ek; [|destruct Hin]. simpl.
+    eapply Hmv; eauto. }
+  constructor.
+  - unfold c'. cbn [c_states]. rewrite keys_mapv.
+    destruct (is_history (s_kind st)); [apply NoDup_keys_dset|]; apply (sd_nd_states c HS).
+  - unfold c'. cbn [c_parent]. apply NoDup_keys_dset. apply (sd_nd_parent c HS).
+  - unfold c'. cbn [c_children]. do 2 apply NoDup_keys_oset. apply (sd_nd_children c HS).
+  - intros k s. rewrite V1. destruct (lookup k (c_states c)) as [s0|] eqn:E; [|discriminate].
+    simpl. intros E2; inv E2. destruct (mv_state_spec n k s0) as [-> _]. apply (sd_keyname c HS _ _ E).
+  - intros k. rewrite V2, V4. destruct (seqbP k n) as [->|Hk]; [|apply (sd_pkeys c HS)].
+    split; [intros _; exact Hn|discriminate].
+  - intros k. rewrite V3, V4. rewrite <- (sd_ckeys c HS).
+    destruct (olookup (Some k) (c_children c)); simpl; split; congruence.
+  - rewrite V3. pose proof (sd_ctop c HS). destruct (olookup None (c_children c)); simpl; congruence.
+  - intros x p. rewrite V2. destruct (seqbP x n) as [->|Hx].
+    + intros E; inv E. split; [intros q E; inv E; rewrite V4; exact Hnp|].
+      exists (mv_list n np (Some np) lnp). rewrite V3, Hlnp. split; [reflexivity|].
+      unfold mv_list. rewrite oeqb_refl, count_occ_snoc.
+      destruct (string_dec n n); [|congruence].
+      assert (count_occ string_dec (remove_first n lnp) n = 0); [|lia].
+      apply (count_occ_not_In string_dec). apply NoDup_remove_first_notin.
+      apply (sound_children_NoDup c HS _ _ Hlnp).
+    + intros Hp. destruct (sd_pc c HS _ _ Hp) as [H1 [l0 [H2 H3]]].
+      split; [intros q E; rewrite V4; apply (H1 q E)|].
+      exists (mv_list n np p l0). rewrite V3, H2. split; [reflexivity|].
+      unfold mv_list. destruct (opt_eqb str_eqb p (Some np)).
+      * rewrite count_occ_snoc, count_occ_remove_first_neq by assumption.
+        destruct (string_dec n x); [congruence|lia].
+      * rewrite count_occ_remove_first_neq by assumption. exact H3.
+  - intros k l' ch. rewrite V3, V2.
+    destruct (olookup k (c_children c)) as [lk|] eqn:Ek; [|discriminate]. simpl.
+    intros E; inv E. intros Hin.
+    assert (Hrm : In ch (remove_first n lk) -> (if str_eqb ch n then Some (Some np) else lookup ch (c_parent c)) = Some k).
+    { intros Hin'. destruct (seqbP ch n) as [->|Hch].
+      - exfalso. revert Hin'. apply NoDup_remove_first_notin. apply (sound_children_NoDup c HS _ _ Ek).
+      - apply (sd_cp c HS _ _ _ Ek). eapply In_remove_first; eauto. }
+    unfold mv_list in Hin. destruct (oeqbP k (Some np)) as [->|Hk]; [|auto].
+    apply in_app_or in Hin. destruct Hin as [Hin|[<-|[]]]; [auto|].
+    rewrite seqb_refl. reflexivity.
+  - intros l'. rewrite V3. destruct (olookup None (c_children c)) as [l0|] eqn:E0; [|discriminate].
+    simpl. intros E; inv E. unfold mv_list. simpl.
+    pose proof (sd_top c HS _ E0) as Hlen.
+    assert (length (remove_first n l0) <= length l0); [|lia].
+    clear. induction l0 as [|y l0 IH]; simpl; [lia|]. destruct (str_eqb n y); simpl; lia.
+  - destruct (sd_acyc c HS) as [rank Hr].
+    exists (fun x => if mem x (n :: descendants_for c n) then rank x + rank np + 1 else rank x).
+    assert (Hsub : forall x, mem x (n :: descendants_for c n) = true <-> x = n \/ anc c x n).
+    { intros x. rewrite mem_In. simpl. rewrite (descendants_for_spec c HS). split; intros [E|E]; auto. }
+    intros x q. rewrite V2. destruct (seqbP x n) as [->|Hx].
+    + intros E; inv E. rewrite Hguard.
+      assert (E : mem n (n :: descendants_for c n) = true) by (apply Hsub; left; reflexivity).
+      rewrite E. lia.
+    + intros Hp. pose proof (Hr _ _ Hp) as Hlt.
+      destruct (mem x (n :: descendants_for c n)) eqn:Ex.
+      * apply Hsub in Ex. destruct Ex as [Ex|Ex]; [congruence|].
+        destruct (anc_inv _ _ _ Ex) as [q' [Hq' Hor]]. rewrite Hp in Hq'. inv Hq'.
+        assert (E : mem q' (n :: descendants_for c n) = true) by (apply Hsub; destruct Hor; auto).
+        rewrite E. lia.
+      * destruct (mem q (n :: descendants_for c n)) eqn:Eq; [|exact Hlt].
+        exfalso. apply Hsub in Eq.
+        assert (E : mem x (n :: descendants_for c n) = true).
+        { apply Hsub. right. destruct Eq as [->|Eq]; [apply anc_parent; exact Hp|eapply anc_step; eauto]. }
+        congruence.
+  - intros t Hin. assert (Hin' : In t (c_transitions c)) by exact Hin.
+    destruct (sd_trans c HS t Hin') as [[s [H1 H2]] H3]. split.
+    + exists (mv_state n (t_source t) s). rewrite V1, H1. split; [reflexivity|].
+      destruct (mv_state_spec n (t_source t) s) as [_ [-> _]]. exact H2.
+    + intros tg E. rewrite V4. apply (H3 tg E).
+  - intros k s. rewrite V1. destruct (lookup k (c_states c)) as [s0|] eqn:E; [|discriminate].
+    simpl. intros E2; inv E2. destruct (mv_state_spec n k s0) as [_ [_ [Hi Hm]]].
+    destruct (sd_refs c HS _ _ E) as [H1 H2].
+    split; intros x Hx; rewrite V4.
+    + apply H1. apply (Hi x Hx).
+    + apply H2. apply (Hm x Hx).
+  - intros k s i. rewrite V1. destruct (lookup k (c_states c)) as [s0|] eqn:E; [|discriminate].
+    simpl. intros E2; inv E2. destruct (mv_state_spec n k s0) as [_ [Hk [Hi _]]].
+    rewrite Hk. intros Hkind Hini. apply truthy_Some in Hini. destruct Hini as [Hini Hine].
+    destruct (Hi i Hini) as [Hi0 Hin]. specialize (Hin Hkind).
+    destruct (sd_vinit c HS k s0 i E Hkind) as [H1 H2]; [rewrite Hi0; apply truthy_nonempty; exact Hine|].
+    rewrite V4. split; [exact H1|apply Hchf; assumption].
+  - intros k s m. rewrite V1. destruct (lookup k (c_states c)) as [s0|] eqn:E; [|discriminate].
+    simpl. intros E2; inv E2. destruct (mv_state_spec n k s0) as [_ [Hk [_ Hmm]]].
+    rewrite Hk. intros Hkind Hmem. destruct (Hmm m Hmem) as [Hm0 Hmn]. destruct (Hmn Hkind) as [Hmn1 Hkn].
+    destruct (sd_vmem c HS k s0 m E Hkind Hm0) as [H1 [H2 [p [H3 H4]]]].
+    split; [exact H1|]. split; [rewrite V4; exact H2|]. exists p. split; [|apply Hchf; assumption].
+    unfold parent_for in *. rewrite V2. destruct (seqbP k n); [congruence|exact H3].
 Qed.
